@@ -1871,6 +1871,14 @@ class ObjectDomain(LazyGenerators, EffectDomain):
                 return out
         if d == "getattr" and len(call.args) == 2 and not call.keywords and not st.has(fr.local("getattr")) and not any(isinstance(a, ast.Starred) for a in call.args):
             # getattr(<whatever the expression evaluates to>, <a name that evaluates to a constant>): the attribute of that value
+            if isinstance(call.args[0], ast.Name) and st.has(fr.local(call.args[0].id)):
+                held = st.get(fr.local(call.args[0].id))
+                where = heap_key(held) if is_handle(held) else fr.local(call.args[0].id)
+                content = st.get(where, None)
+                names_ = [r for r in interp.eval(call.args[1], st, fr)]
+                if isinstance(content, tuple) and content[:1] == ("set",) and len(names_) == 1 and names_[0].kind == "val" and isinstance(names_[0].value, tuple) \
+                        and names_[0].value[:1] == ("const",) and names_[0].value[1] in self.SET_METHODS:
+                    return [val(("setmethod", where, names_[0].value[1]), names_[0].state)]   # getattr(<a set>, "update"): the method bound to that very set
             out, ok = [], True
             for r in interp.eval_list(list(call.args), st, fr):
                 if r.kind == "exc":
@@ -2808,6 +2816,10 @@ class ObjectDomain(LazyGenerators, EffectDomain):
         """One-argument application used by lazy maps: any callable of this model."""
         if isinstance(fn, tuple) and fn[:1] and fn[0] in CALLABLE_TAGS + ("wobj", "userfn") and not (fn[0] == "methodcaller" and isinstance(arg, tuple) and arg[:1] == ("wobj",)):
             return self.apply(interp, fn, [arg], [], st, fr)
+        if is_inst(fn):
+            return self.apply(interp, fn, [arg], [], st, fr)   # an object with __call__
+        if fn == TOP and self.strict_calls:
+            raise Undecided(f"map(...) over a function the analysis could not determine, in {fr.name}")
         return super()._apply(interp, fn, arg, st, fr)
 
     def _dict_read(self, cur, method, pos, st):
